@@ -216,6 +216,14 @@ func (r *BumpRequest) MaxFeeRateAllowed() (chainfee.SatPerKWeight, error) {
 	// can be very high and we need to make sure it doesn't exceed the max
 	// fee rate.
 	maxFeeRateAllowed := chainfee.NewSatPerKWeight(r.Budget, size)
+
+	// NewSatPerKWeight rounds to the nearest sat/kw, make sure the fee at
+	// this rate stays within the budget.
+	for maxFeeRateAllowed > 0 &&
+		maxFeeRateAllowed.FeeForWeight(size) > r.Budget {
+
+		maxFeeRateAllowed--
+	}
 	if maxFeeRateAllowed > r.MaxFeeRate {
 		log.Debugf("Budget feerate %v exceeds MaxFeeRate %v, use "+
 			"MaxFeeRate instead, txWeight=%v", maxFeeRateAllowed,
